@@ -555,8 +555,7 @@ class Atoms:
                 continue
             tup = line.split()
             if current_section == "Masses":
-                masses.append(tup[1])
-                atom_type_labels.append(comment)
+                masses.append((int(tup[0]), tup[1], comment))
             elif current_section == "Pair Coeffs":
                 pair_coeffs.append("%s%s" % (" ".join(tup[1:]), comment_string))
             elif current_section == "Bond Coeffs":
@@ -594,7 +593,10 @@ class Atoms:
             else: # orthorhombic
                 cell = np.identity(3) * (cellx, celly, cellz)
 
-        atom_type_masses = np.array(masses, dtype=float)
+        # the Masses lines may come in any order: each line binds its mass and label to its type id
+        masses.sort(key=lambda m: m[0])
+        atom_type_labels = [m[2] for m in masses]
+        atom_type_masses = np.array([m[1] for m in masses], dtype=float)
         atoms = np.array(atoms, dtype=float)
         if len(atoms) == 0:
             # a file without atoms: keep the table two-dimensional so that the column slices below are empty
